@@ -286,3 +286,45 @@ func okStr(r *Result) string {
 	}
 	return "rejected(" + classifyErr(r.ErrStr) + ")"
 }
+
+// c15GenesisParams is the Post step of the C15 plan. The harness boots its chains through the very
+// InitGenesis under test, so a defect that rewrites a value *on import* could hide behind the
+// exploration (the explored states would simply never hold that value). Here a chain is booted from
+// genesis files carrying each boundary value of the module parameters and the stored parameters must be
+// the ones the file carries.
+func c15GenesisParams(p *Plan, o ExecOpts, rs []*RunResult, ev *Evidence) ([]Violation, error) {
+	var vs []Violation
+	n := 0
+	for _, c := range []struct {
+		creation, bid string
+		period        uint32
+	}{{"", "", 0}, {"", "", 1}, {"2bcoin", "1bcoin", 0}, {"2bcoin", "1bcoin", 3}, {"1acoin,2bcoin", "", 30}} {
+		w, err := world.New(world.Config{Balances: stdBalances(), Params: params(c.creation, c.bid, c.period)})
+		if err != nil {
+			return nil, err
+		}
+		st, err := w.Snapshot(w.Base())
+		if err != nil {
+			return nil, err
+		}
+		n++
+		want := fmt.Sprintf("%s/%s/%d", coinsRefStr(c.creation), coinsRefStr(c.bid), c.period)
+		got := fmt.Sprintf("%s/%s/%d", st.CreationFee, st.BidFee, st.ExtPeriod)
+		if got != want {
+			vs = append(vs, Violation{Prop: "C15", Sig: "genesis-params-altered-on-import", Detail: fmt.Sprintf("a genesis file carrying params creation_fee=%q place_bid_fee=%q extended_period=%d is imported as %s", c.creation, c.bid, c.period, got)})
+		}
+	}
+	ev.Coverage["genesis_param_boundary_files_imported"] = n
+	return vs, nil
+}
+
+func coinsRefStr(s string) string {
+	if s == "" {
+		return ""
+	}
+	c := ref.Coins{}
+	for _, x := range coins(s) {
+		c[x.Denom] = x.Amount.BigInt()
+	}
+	return c.String()
+}
